@@ -390,6 +390,9 @@ uint16_t SimulateMsp430::get_data(
     {
       ea = ram_read16(PC);
 
+      // A word access ignores bit 0 of the address.
+      if (bw == BW_WORD) { ea &= 0xfffe; }
+
       reg[0] += 2;
 
       if (do_mem_read)
@@ -436,6 +439,8 @@ uint16_t SimulateMsp430::get_data(
     uint16_t a = ram_read16(PC);
     ea = (reg[reg_index] + ((int16_t)a)) & 0xffff;
 
+    if (bw == BW_WORD) { ea &= 0xfffe; }
+
     reg[0] += 2;
 
     if (do_mem_read)
@@ -456,6 +461,8 @@ uint16_t SimulateMsp430::get_data(
   if (As == 2 || As == 3) // @Rn (mode 2) or @Rn+ (mode 3)
   {
     ea = reg[reg_index];
+
+    if (bw == BW_WORD) { ea &= 0xfffe; }
 
     if (do_mem_read)
     {
